@@ -46,7 +46,7 @@ theorem runSegs_encrypt (c : Crypto) (P : EncParams) (cph : Nat) (pk np : Bytes)
   simp [encryptSeg, this]
 
 theorem specPayload_pos (c : Crypto) (P : EncParams) (cph : Nat) (pk np : Bytes) (S : Nat)
-    (lc : c.Lawful P.overhead) (x : Bytes × Bool) (xs : List (Bytes × Bool)) (i : Nat)
+    (lc : c.LawfulFor P pk np) (x : Bytes × Bool) (xs : List (Bytes × Bool)) (i : Nat)
     (hsh : Shape S (x :: xs)) (hS : 0 < S) : 0 < (specPayload c P cph pk np i (x :: xs)).length := by
   obtain ⟨d, l⟩ := x
   have hd : 0 < d.length := by
@@ -59,7 +59,7 @@ theorem specPayload_pos (c : Crypto) (P : EncParams) (cph : Nat) (pk np : Bytes)
 /-- Splitting the specification payload into pieces of `S + overhead` bytes gives back the
     sealed segments with their flags. -/
 theorem segments_specPayload (c : Crypto) (P : EncParams) (cph : Nat) (pk np : Bytes) (S : Nat) (hS : 0 < S)
-    (lc : c.Lawful P.overhead) : ∀ (segs : List (Bytes × Bool)) (i : Nat), Shape S segs →
+    (lc : c.LawfulFor P pk np) : ∀ (segs : List (Bytes × Bool)) (i : Nat), Shape S segs →
     segments (S + P.overhead) (specPayload c P cph pk np i segs) = sealedSegs c P cph pk np i segs := by
   intro segs
   induction segs with
@@ -72,7 +72,7 @@ theorem segments_specPayload (c : Crypto) (P : EncParams) (cph : Nat) (pk np : B
       obtain ⟨hl, hpos, hle⟩ := hsh
       subst hl
       simp only [specPayload, List.append_nil, sealedSegs]
-      have hsl := lc.seal_length cph pk (nonceFor P np i true) d
+      have hsl := lc.seal_length cph i true d
       rw [segments_le]
       · intro h; rw [h] at hsl; simp at hsl; omega
       · omega
@@ -88,7 +88,7 @@ theorem segments_specPayload (c : Crypto) (P : EncParams) (cph : Nat) (pk np : B
 
 /-- `Decrypt`'s loop over the sealed segments releases the plaintext and ends cleanly. -/
 theorem runSegs_decrypt_sealed (c : Crypto) (P : EncParams) (cph : Nat) (pk np : Bytes) (S : Nat) (hS : 0 < S)
-    (lc : c.Lawful P.overhead) : ∀ (segs : List (Bytes × Bool)) (i : Nat), Shape S segs →
+    (lc : c.LawfulFor P pk np) : ∀ (segs : List (Bytes × Bool)) (i : Nat), Shape S segs →
     i + segs.length ≤ P.maxSeg + 1 →
     (runSegs P.maxSeg (decryptSeg c P cph pk np) (sealedSegs c P cph pk np i segs) i .ok).out
         = (segs.map (·.1)).flatten ∧
@@ -104,7 +104,7 @@ theorem runSegs_decrypt_sealed (c : Crypto) (P : EncParams) (cph : Nat) (pk np :
       have hne : (c.aseal cph pk (nonceFor P np i l) d).isEmpty = false := by
         cases hx : c.aseal cph pk (nonceFor P np i l) d with
         | nil =>
-          have := lc.seal_length cph pk (nonceFor P np i l) d
+          have := lc.seal_length cph i l d
           rw [hx] at this
           have hd : 0 < d.length := by
             cases t with
@@ -140,16 +140,16 @@ theorem specEncrypt_eq (c : Crypto) (cd : Codec) (P : EncParams) (fk : Bytes) (m
         specPayload c P m.cph (payloadKey c P fk m.np) m.np 0 (segments P.segSize p) := by
   simp [specEncrypt, hdrBytes, headerMac, headerKey, headerMessage, payloadKey, List.append_assoc]
 
-theorem header_wf (c : Crypto) (cd : Codec) (P : EncParams) (pwf : P.WF) (lc : c.Lawful P.overhead)
+theorem header_wf (c : Crypto) (cd : Codec) (P : EncParams) (pwf : P.WF) (hmac : ∀ k msg, c.hmac k msg ≠ [])
     (lcd : cd.Lawful P) (fk : Bytes) (m : Manifest) :
     HdrWF P.scheme (cd.render m) (cd.b64 (headerMac c P fk (cd.render m))) :=
   ⟨pwf.scheme_ne, pwf.scheme_nl, (lcd.render_line m).1, (lcd.render_line m).2,
-    (lcd.b64_line _ (lc.hmac_ne _ _)).1, (lcd.b64_line _ (lc.hmac_ne _ _)).2⟩
+    (lcd.b64_line _ (hmac _ _)).1, (lcd.b64_line _ (hmac _ _)).2⟩
 
 /-- `Decrypt` on a non-failing source that starts with the honest header of `(fk, m)`: everything
     up to the segment loop succeeds, whatever follows the header and however it is chunked. -/
 theorem decrypt_of_honest_header (b : Bool) (c : Crypto) (cd : Codec) (P : EncParams) (pwf : P.WF)
-    (lc : c.Lawful P.overhead) (lcd : cd.Lawful P) (fk : Bytes) (hfk : fk.length = P.fkLen)
+    (hmac : ∀ k msg, c.hmac k msg ≠ []) (lcd : cd.Lawful P) (fk : Bytes) (hfk : fk.length = P.fkLen)
     (m : Manifest) (hm : m.valid P = true) (o : DecryptOpts)
     (hkn : o.keyName ≠ [] ∨ m.keyName ≠ [])
     (hunwrap : ∀ kn, o.unwrap m kn = fk)
@@ -163,7 +163,7 @@ theorem decrypt_of_honest_header (b : Bool) (c : Crypto) (cd : Codec) (P : EncPa
          (processSegments (P.segSize + P.overhead) P.maxSeg
             (decryptSeg c P m.cph (payloadKey c P fk m.np) m.np) r').term) := by
   rw [signHeader_eq] at hhdr hstream
-  obtain ⟨r', hrh, hrs, hrt⟩ := readHeader_complete b P _ _ payload (header_wf c cd P pwf lc lcd fk m) hhdr r heof hstream
+  obtain ⟨r', hrh, hrs, hrt⟩ := readHeader_complete b P _ _ payload (header_wf c cd P pwf hmac lcd fk m) hhdr r heof hstream
   refine ⟨r', hrs, hrt, ?_⟩
   unfold decryptWith
   rw [hrh]
@@ -192,8 +192,8 @@ theorem splitLine_append (line rest : Bytes) (h : (10 : UInt8) ∉ line) :
     have hbs : (10 : UInt8) ∉ bs := fun h0 => h (by simp [h0])
     simp [splitLine, hb, ih hbs]
 
-theorem specOpenSegs_sealed (c : Crypto) (P : EncParams) (cph : Nat) (pk np : Bytes) (ov : Nat)
-    (lc : c.Lawful ov) : ∀ (segs : List (Bytes × Bool)) (i : Nat),
+theorem specOpenSegs_sealed (c : Crypto) (P : EncParams) (cph : Nat) (pk np : Bytes)
+    (lc : c.LawfulFor P pk np) : ∀ (segs : List (Bytes × Bool)) (i : Nat),
     specOpenSegs c P cph pk np i (sealedSegs c P cph pk np i segs) = some ((segs.map (·.1)).flatten) := by
   intro segs
   induction segs with
@@ -207,8 +207,8 @@ theorem specOpenSegs_sealed (c : Crypto) (P : EncParams) (cph : Nat) (pk np : By
 /-- A decoder written from README.md opens every document of the specification encoder (and hence,
     by `encrypt_layout`, every document `Encrypt` writes). -/
 theorem specDecrypt_specEncrypt (c : Crypto) (cd : Codec) (P : EncParams) (pwf : P.WF)
-    (lc : c.Lawful P.overhead) (lcd : cd.Lawful P) (fk : Bytes) (m : Manifest) (hm : m.valid P = true)
-    (p : Bytes) : specDecrypt c cd P fk (specEncrypt c cd P fk m p) = some p := by
+    (lcd : cd.Lawful P) (fk : Bytes) (m : Manifest) (lc : c.LawfulFor P (payloadKey c P fk m.np) m.np)
+    (hm : m.valid P = true) (p : Bytes) : specDecrypt c cd P fk (specEncrypt c cd P fk m p) = some p := by
   have hform : specEncrypt c cd P fk m p =
       P.scheme ++ 10 :: (cd.render m ++ 10 :: (cd.b64 (c.hmac (c.hkdf fk [] P.hdrInfo P.hdrKeyLen)
         (P.scheme ++ [10] ++ cd.render m ++ [10])) ++ 10 ::
@@ -224,6 +224,9 @@ theorem specDecrypt_specEncrypt (c : Crypto) (cd : Codec) (P : EncParams) (pwf :
   simp only [ne_eq, not_true_eq_false, if_false, lcd.parse_render m hm, lcd.unb64_b64]
   have := segments_specPayload c P m.cph (c.hkdf fk m.np P.payInfo P.payKeyLen) m.np P.segSize pwf.seg_pos lc
     (segments P.segSize p) 0 (segments_shape _ pwf.seg_pos _)
-  rw [this, specOpenSegs_sealed c P m.cph _ m.np P.overhead lc, segments_concat _ pwf.seg_pos]
+  rw [this]
+  have h2 := specOpenSegs_sealed c P m.cph (payloadKey c P fk m.np) m.np lc (segments P.segSize p) 0
+  simp only [payloadKey] at h2
+  rw [h2, segments_concat _ pwf.seg_pos]
 
 end Kit.Enc
